@@ -364,10 +364,12 @@ func (in *icInst) check(c *mc.Ctx, o icOracle, prop string, path []string) {
 		// what the router hands to the pier of each chain for this block (the real
 		// InterchainRouter.GetInterchainTxWrappers over the replica's ledger) must be exactly
 		// the transactions the block's delivery set lists for that chain, in that order
-		for _, chain := range []string{fix.ChainA, fix.ChainB, fix.ChainC} {
-			got, _, _, err := icRouterNotices(r, st.height, chain)
-			if err != nil {
-				bad("router-error", "router cannot produce the delivery of block %d for %s: %v", st.height, chain, err)
+		icChains := []string{fix.ChainA, fix.ChainB, fix.ChainC}
+		view := icRouterView(r, st.height, icChains)
+		icCheckRouterView(c, view, st.height, res.Meta, icChains, bad)
+		for _, chain := range icChains {
+			got := view[chain].txs
+			if view[chain].err != nil {
 				continue
 			}
 			var want []string
@@ -384,7 +386,6 @@ func (in *icInst) check(c *mc.Ctx, o icOracle, prop string, path []string) {
 			}
 		}
 	}
-	icCheckRouterNotices(c, r, st.height, res.Meta, []string{fix.ChainA, fix.ChainB, fix.ChainC}, bad)
 	for i, e := range st.exp {
 		rc := res.Receipts[i]
 		switch e.verdict {
@@ -610,10 +611,36 @@ func runIC(c *mc.Ctx, prop string, o icOracle, opt fix.Options, name string, alp
 // transactions, the timeout notifications and the multi-transaction (group rollback)
 // notifications.
 func icRouterNotices(r *fix.Replica, h uint64, chain string) (txs, timeouts, multi []string, err error) {
+	return icRouterNoticesWith(icNewRouter(r), h, chain)
+}
+
+func icNewRouter(r *fix.Replica) *router.InterchainRouter {
 	rt, err := router.New(fix.Logger(), nil, r.L, nil, 1)
 	if err != nil {
 		panic(err)
 	}
+	return rt
+}
+
+// icRouted is what the router hands to one chain's pier for one block.
+type icRouted struct {
+	txs, timeouts, multi []string
+	err                  error
+}
+
+// icRouterView asks the real router once per chain for block h.
+func icRouterView(r *fix.Replica, h uint64, chains []string) map[string]*icRouted {
+	rt := icNewRouter(r)
+	out := map[string]*icRouted{}
+	for _, ch := range chains {
+		v := &icRouted{}
+		v.txs, v.timeouts, v.multi, v.err = icRouterNoticesWith(rt, h, ch)
+		out[ch] = v
+	}
+	return out
+}
+
+func icRouterNoticesWith(rt *router.InterchainRouter, h uint64, chain string) (txs, timeouts, multi []string, err error) {
 	ch := make(chan *pb.InterchainTxWrappers, 4)
 	if err := rt.GetInterchainTxWrappers(chain, h, h, ch); err != nil {
 		return nil, nil, nil, err
@@ -640,10 +667,17 @@ func icCheckRouterNotices(c *mc.Ctx, r *fix.Replica, h uint64, meta *pb.Intercha
 	if meta == nil {
 		return
 	}
+	icCheckRouterView(c, icRouterView(r, h, chains), h, meta, chains, bad)
+}
+
+func icCheckRouterView(c *mc.Ctx, view map[string]*icRouted, h uint64, meta *pb.InterchainMeta, chains []string, bad func(sig, format string, a ...interface{})) {
+	if meta == nil {
+		return
+	}
 	for _, chain := range chains {
-		_, to, mu, err := icRouterNotices(r, h, chain)
-		if err != nil {
-			bad("router-error", "router cannot produce the delivery of block %d for %s: %v", h, chain, err)
+		v := view[chain]
+		if v.err != nil {
+			bad("router-error", "router cannot produce the delivery of block %d for %s: %v", h, chain, v.err)
 			continue
 		}
 		var wantTo, wantMu []string
@@ -654,11 +688,11 @@ func icCheckRouterNotices(c *mc.Ctx, r *fix.Replica, h uint64, meta *pb.Intercha
 			wantMu = sl.Slice
 		}
 		c.Add("router_notices_checked", 1)
-		if strings.Join(to, ",") != strings.Join(wantTo, ",") {
-			bad("router-timeout-notices-differ", "for chain %s the router hands over the timeout notifications %v but block %d lists %v", chain, to, h, wantTo)
+		if strings.Join(v.timeouts, ",") != strings.Join(wantTo, ",") {
+			bad("router-timeout-notices-differ", "for chain %s the router hands over the timeout notifications %v but block %d lists %v", chain, v.timeouts, h, wantTo)
 		}
-		if strings.Join(mu, ",") != strings.Join(wantMu, ",") {
-			bad("router-group-rollback-notices-differ", "for chain %s the router hands over the group-rollback notifications %v but block %d lists %v", chain, mu, h, wantMu)
+		if strings.Join(v.multi, ",") != strings.Join(wantMu, ",") {
+			bad("router-group-rollback-notices-differ", "for chain %s the router hands over the group-rollback notifications %v but block %d lists %v", chain, v.multi, h, wantMu)
 		}
 	}
 }
